@@ -174,6 +174,7 @@ type enc struct {
 	typeOfArg map[*ssa.Call]Term
 	storesOnly bool
 	dropAt  bool
+	inlineCt *Contract
 	wfSeen  map[string]bool
 	resultTerms []modelVar
 	finder  bool
@@ -343,6 +344,9 @@ func (e *enc) nilOf(t types.Type) Term { return "0" }
 
 func (e *enc) zero(t types.Type) Term {
 	s := e.so.of(t)
+	if isCtxStruct(t) {
+		return "0"
+	}
 	switch u := t.Underlying().(type) {
 	case *types.Basic:
 		switch s {
@@ -458,6 +462,10 @@ func (e *enc) value(v ssa.Value) Term {
 	}
 	if l, ok := fr.loc[v]; ok && l.ref != "" && len(l.path) == 0 {
 		return l.ref
+	}
+	if l, ok := fr.loc[v]; ok && l.ref == "" && l.sort == "Int" && l.ty != nil && isCtxStruct(l.ty) {
+		// the address of a local copy of a rule context: the same tree node
+		return e.read(l)
 	}
 	if _, ok := fr.loc[v]; ok {
 		// a pointer into a local cell used as a plain value: opaque non-nil ref
@@ -735,4 +743,14 @@ var boundVarRe = regexp.MustCompile(`(^|[^A-Za-z0-9_])(a|q|wf|sq|ex)_[A-Za-z0-9_
 
 func isValueTerm(z Term) bool {
 	return !strings.Contains(z, "zero_") && !strings.Contains(z, "zarr") && !strings.Contains(z, "zval_") && !strings.Contains(z, "zopq")
+}
+
+// isCtxStruct: a generated rule-context struct type (XContext of a parser package)
+func isCtxStruct(t types.Type) bool {
+	n, ok := t.(*types.Named)
+	if !ok || n.Obj().Pkg() == nil {
+		return false
+	}
+	_, isStruct := n.Underlying().(*types.Struct)
+	return isStruct && strings.Contains(n.Obj().Pkg().Path(), "/languages/") && strings.HasSuffix(n.Obj().Name(), "Context")
 }
